@@ -18,6 +18,23 @@ from harness import world
 from harness.common import Ctx
 from harness.translate import status_table
 
+GENERATED = [("harness.translate.status_table", "translate", "gen/StatusTable_gen.v")]
+
+MANIFEST = {
+    "technique": "Coq proof over a table generated from status.py + exhaustive differential correspondence",
+    "text": "Machine-checked theorems (Props/C01.v): the table regenerated from status.py:_CONFIG on every run, run through the "
+            "mirror of status_record_transition, equals the hand-transcribed documented single step for ALL records/requests/"
+            "requesters; finals absorbing; ownership enforced; owner-after rule; refused change leaves the system unchanged; for "
+            "EVERY operation sequence the successful changes of each invocation form a documented path from REGISTERED (induction "
+            "over the op list). Tie: the complete (15x3)x(14x3) single-step space is executed on the pure function, MemOrchestrator "
+            "and SQLiteOrchestrator through set_invocation_status and compared with model and specification; sequences exhaustive "
+            "to a short length + seeded random walks on both backends.",
+    "note": "Trusted: Coq kernel; AST translator of _CONFIG (fail-closed); hand mirror of the three status.py functions (tied by the "
+            "exhaustive single-step run + AST shape hash); runner universe {none,r1,r2} in the correspondence; state injection into "
+            "the backends' stores for unreachable (status, owner) combinations.",
+    "design_ref": "DESIGN.md §6 C01",
+}
+
 ST = status_table.STATUSES
 RUNNERS = [None, "r1", "r2"]            # model: None, Some 1, Some 2
 IMPORTS = ["Model.Status", "Model.StatusDef", "gen.StatusTable_gen", "Model.StatusImpl", "Model.Lifecycle"]
